@@ -4,6 +4,7 @@ package main
 // ArchivePathsFromManifest) with the Lean transcription Dawgs.C20.sanitize (Go path.Clean included).
 //
 //	path <hex of the UTF-8 name>   ->   ok <hex of the cleaned path> | err <empty|backslash|absolute|traversal|invalid>
+//	canon <hex>                    ->   canonical | respelled | rejected    (is the name its own sanitised form: raw lookup key = sanitised key)
 //	clean <hex>                    ->   <hex of Go's path.Clean>            (the model's pathClean, rooted / `..` cases included)
 //	join <hex out> <hex rel>       ->   <hex of filepath.Join(out, filepath.FromSlash(rel))>   (the model's joinOut; out non-empty)
 
@@ -68,6 +69,25 @@ func (r *c20PathRunner) Step(t []string, raw string) string {
 		}
 		r.stats.Inc("branch.clean")
 		return "= " + hex.EncodeToString([]byte(path.Clean(string(b))))
+	case t[0] == "canon" && len(t) <= 2:
+		// lookup-key agreement: is the name already in the form the sanitiser returns (raw key = sanitised key)?
+		arg := ""
+		if len(t) == 2 {
+			arg = t[1]
+		}
+		b, err := hex.DecodeString(arg)
+		if err != nil {
+			return "bad-op"
+		}
+		ans := c20Sanitize(string(b))
+		r.stats.Inc("branch.canon")
+		switch {
+		case strings.HasPrefix(ans, "err"):
+			return "rejected"
+		case ans == "ok "+hex.EncodeToString(b):
+			return "canonical"
+		}
+		return "respelled"
 	case t[0] == "join" && (len(t) == 2 || len(t) == 3):
 		out, err1 := hex.DecodeString(t[1])
 		rel := []byte{}
@@ -113,6 +133,11 @@ func (c20PathSuite) Gen(rng *Rng, tier string, w *bufio.Writer, stats *Stats) {
 				h := hex.EncodeToString([]byte(strings.ReplaceAll(name, "{ROOT}", "/tmp/root")))
 				fmt.Fprintf(w, "path %s\n", h)
 				fmt.Fprintf(w, "clean %s\n", h)
+				fmt.Fprintf(w, "canon %s\n", h)
+				if ans := c20Sanitize(strings.ReplaceAll(name, "{ROOT}", "/tmp/root")); strings.HasPrefix(ans, "ok ") {
+					// second application: the sanitiser on its own output (it is NOT idempotent: `./ a` -> ` a` -> `a`)
+					fmt.Fprintf(w, "path %s\ncanon %s\n", ans[3:], ans[3:])
+				}
 				fmt.Fprintf(w, "join %s %s\n", hex.EncodeToString([]byte(Pick(rng, []string{"/out", "/", "/tmp/x/../dest/", "rel/out", ".", "..", "//a//b/./"}))), h)
 				stats.Inc("gen.path")
 			}
